@@ -29,12 +29,13 @@ collapsed — first position, last value — unless `--preserve-input` on the cu
 iff `-S`), with number tokens re-spelled by the route's `fmt` and spelling bits forgotten.
 Hypotheses: `fmt` maps RFC 8259 number tokens to RFC 8259 number tokens (that it preserves the
 *value* is property C10's theorem; the driver checks "same double" on every number of every
-request), and the prepared value is well-formed (`prep_wf` below discharges this from `v.wf`
-for the materialised/owned routes… see `wf` there). Trailing whitespace / the newline terminator is
-covered by `w`. -/
+request), and `v` is well-formed (`V.wf`: number literals are in the RFC 8259 grammar and a string
+marked "no backslash in the source span" holds no character JSON must escape — what a reader of
+valid JSON produces; the driver checks it on every document). Trailing whitespace / the newline
+terminator is covered by `w`. -/
 theorem print_read (o : Opts) (r : Route) (fmt : Bytes → Bytes)
     (hfmt : ∀ l, validNum l = true → validNum (fmt l) = true)
-    (v : V) (hv : (o.prep r v).wf = true) (w : Bytes) (hw : w.all isWs = true) :
+    (v : V) (hv : v.wf = true) (w : Bytes) (hw : w.all isWs = true) :
     read (body o r fmt v ++ w) = .ok (canon o r fmt v) := by
   unfold body canon
   apply read_render
@@ -49,13 +50,13 @@ theorem print_read (o : Opts) (r : Route) (fmt : Bytes → Bytes)
     cases r <;> simpa [Opts.cfg] using hu
   · intro l hl
     cases r <;> simp only [Opts.cfg] <;> first | exact hfmt l hl | (split <;> first | exact hl | exact hfmt l hl)
-  · exact hv
+  · exact wf_prep o r v hv
   · exact hw
 
 /-- the output as framed on stdout (newline terminator) reads back: `print` for the default framing -/
 theorem print_read_line (o : Opts) (r : Route) (fmt : Bytes → Bytes)
     (hfmt : ∀ l, validNum l = true → validNum (fmt l) = true)
-    (v : V) (hv : (o.prep r v).wf = true) :
+    (v : V) (hv : v.wf = true) :
     read (body o r fmt v ++ [0x0a]) = .ok (canon o r fmt v) :=
   print_read o r fmt hfmt v hv [0x0a] (by decide)
 
@@ -107,6 +108,25 @@ example :
         (fun f => (f.1.cs, f.1.esc, render { compact := true, unit := [], ascii := false, fmt := id } 0 f.2))
       = [(['a'], true, [0x33]), (['b'], false, [0x32])] := by
   decide
+
+/-- `sorted_keys`: with `-S` (which always selects the materialised route: `Opts.lazy` is false)
+every object of the printed value has strictly increasing keys in the order `String::cmp` uses —
+lexicographic by UTF-8 bytes, i.e. by Unicode scalar value (`keyLt`), which is jq's order too; strict
+because duplicate keys were collapsed first. Together with `print_read` the *text* has its keys in
+that order. -/
+theorem sorted_keys (o : Opts) (v : V) (hs : o.sortKeys = true) :
+    o.lazy = false ∧ SortedV (o.prep .mat v) := by
+  refine ⟨by simp [Opts.lazy, hs], ?_⟩
+  simp only [Opts.prep, hs, ↓reduceIte]
+  exact sorted_sortDeep _ (nodup_owned _ (nodup_collapseDeep v))
+
+/-- non-vacuity: `{"b":1,"é":2,"a":3,"b":{"z":0,"y":0}}` under `-S -c` -/
+example :
+    body { sortKeys := true, compact := true } .mat id
+      (.obj [(⟨['b'], false⟩, .num [0x31]), (⟨['é'], false⟩, .num [0x32]), (⟨['a'], false⟩, .num [0x33]),
+             (⟨['b'], false⟩, .obj [(⟨['z'], false⟩, .num [0x30]), (⟨['y'], false⟩, .num [0x30])])])
+      = "{\"a\":3,\"b\":{\"y\":0,\"z\":0},\"é\":2}".toUTF8.toList := by
+  decide +kernel
 
 /-- `ascii_only`: with `-a` (which always selects the materialised route: `Opts.lazy` is false)
 every byte of the JSON text is below 0x80, provided the number re-spelling writes ASCII. -/
